@@ -217,8 +217,9 @@ def gen_cases(ctx):
     quick = ctx.tier == "quick"
     good_sub = ("ok", [1, 2])
     cases = []      # (steps=[(file, sub)], tag)
-    for c in (ctx.replay or {}).get("failures", []):
-        cc = c.get("case", {})
+    rp = ctx.replay or {}
+    for c in rp.get("failures", []) + rp.get("broken", []) + rp.get("theorem_or_correspondence", []):
+        cc = c.get("case") or {}
         if "steps" in cc:
             cases.append(([(tuple(f) if f[0] != "raw" else ("raw", norm_raw(f[1])), tuple(s) if s[0] != "ok" else ("ok", s[1])) for f, s in cc["steps"]], "replay"))
     # start-up: shipped file, single keys, liveness product, pairwise covering, random
